@@ -114,7 +114,7 @@ theorem patchFvHeader_tail (buf : Bytes) (length : Nat) (guid : Option Guid) (co
   have g1 : (splice buf 32 (leN 8 length))[j]? = buf[j]? :=
     splice_getElem?_ge _ _ _ _ (by simp only [leN_length]; omega) (by simp only [leN_length]; omega)
   have key : ∀ b2 : Bytes, b2.length = buf.length → b2[j]? = buf[j]? →
-      (if headerLen > (splice (splice b2 56 (leN 4 count)) 50 [0, 0]).length then (Except.error Err.panic : Except Err Bytes)
+      (if headerLen > (splice (splice b2 56 (leN 4 count)) 50 [0, 0]).length then (Except.error Err.err : Except Err Bytes)
        else if headerLen % 2 ≠ 0 then .error .err
        else .ok (splice (splice (splice b2 56 (leN 4 count)) 50 [0, 0]) 50
           (leN 2 ((0 - sum16 ((splice (splice b2 56 (leN 4 count)) 50 [0, 0]).take headerLen)).toNat)))) = .ok out →
